@@ -15,7 +15,8 @@ from __future__ import annotations
 
 import pandas as pd
 
-CLASSES = ("reduction", "groupby-agg", "merge", "concat", "shuffle", "window", "repartition", "index", "astype")
+CLASSES = ("reduction", "groupby-agg", "merge", "concat", "shuffle", "window", "repartition", "index", "astype",
+           "indexcol", "pushdown", "select-after")
 NUMCOLS = ["a", "c", "d"]
 
 
@@ -26,7 +27,8 @@ def _pick(r, seq):
 def gen_program(rng, klass=None, known=True):
     r = rng
     klass = klass or _pick(r, CLASSES)
-    return getattr(_Gen, "g_" + klass.replace("-", "_"))(r, known)
+    fn = "g_" + klass.replace("-", "_")
+    return (globals().get(fn) or getattr(_Gen, fn))(r, known)
 
 
 class _Gen:
@@ -302,8 +304,11 @@ def _dd():
     return dd
 
 
-def apply(desc, frame, is_dask, other=None):
+def apply(desc, frame, is_dask, other=None, upto=None):
+    """``upto`` (new classes only): 'inner' = the program without its final consumer (the tail)."""
     k = desc["class"]
+    if k in ("indexcol", "pushdown", "select-after"):
+        return globals()["_a_" + k.replace("-", "_")](desc, frame, is_dask, other, upto)
     return globals()["_a_" + k.replace("-", "_")](desc, frame, is_dask, other)
 
 
@@ -513,6 +518,777 @@ def _a_index(d, df, is_dask, other):
     if op == "index-nunique":
         return df.index.nunique()
     raise ValueError(op)
+
+
+# =========================================================================== consumers ("tails") shared by the new classes
+# A tail is the final consumer of the object R built so far.  Column entries are [name, dtype class, source] with dtype
+# class in int float str dt cat bool num other and source "ix" (the column was made from the index) or "col".
+TAIL_OPS_F = ("getcol", "getcols", "arith1", "arith2", "filter", "filter-getcol", "filter-getcols", "sfilter", "assign",
+              "assign-getcols", "index", "getcols-index", "filter-index", "count", "reduce", "self", "reset-getcol",
+              "reset-getcols")
+_TAIL_W_F = {"getcol": 5, "getcols": 4, "arith1": 1.5, "arith2": 2.5, "filter": 1, "filter-getcol": 3.5, "filter-getcols": 2,
+             "sfilter": 1.5, "assign": 0.7, "assign-getcols": 1.5, "index": 0.6, "getcols-index": 0.6, "filter-index": 0.8,
+             "count": 0.5, "reduce": 1, "self": 1, "reset-getcol": 0, "reset-getcols": 0}
+_TAIL_W_S = {"self": 2, "s-arith": 2, "s-filter": 2.5, "s-index": 0.8, "s-filter-index": 0.6, "s-to_frame-getcol": 1.5,
+             "s-reduce": 1, "s-reset-getcol": 0, "s-label": 0}
+# frame tail -> the series tail used instead when R turns out to be a Series (dynamic tails only)
+_SERIES_FALLBACK = {"getcol": "s-reset-getcol", "getcols": "s-to_frame-getcol", "arith1": "s-arith", "arith2": "s-arith",
+                    "filter": "s-filter", "filter-getcol": "s-filter", "filter-getcols": "s-filter", "sfilter": "s-filter",
+                    "assign": "s-to_frame-getcol", "assign-getcols": "s-to_frame-getcol", "index": "s-index",
+                    "getcols-index": "s-index", "filter-index": "s-filter-index", "count": "s-reduce", "reduce": "s-reduce",
+                    "self": "self", "reset-getcol": "s-reset-getcol", "reset-getcols": "s-reset-getcol"}
+_READS_INDEX = ("index", "getcols-index", "filter-index", "s-index", "s-filter-index", "reset-getcol", "reset-getcols",
+                "s-reset-getcol")
+
+
+def _wpick(r, weights):
+    items = [(k, w) for k, w in weights.items() if w > 0]
+    x = r.random() * sum(w for _, w in items)
+    for k, w in items:
+        x -= w
+        if x <= 0:
+            return k
+    return items[-1][0]
+
+
+def _pred_for(dt, src):
+    if dt in ("int", "Int"):
+        return ["gt", 5 if src == "ix" else 1]
+    if dt == "num":
+        return ["gt", 1]
+    if dt == "float":
+        return ["gt", 0.0]
+    if dt == "str":
+        return ["gt", "s010"] if src == "ix" else ["ne", "x"]
+    if dt == "dt":
+        return ["gt", {"ts": "2021-03-01 00:20:00" if src == "ix" else "2020-01-02 00:00:00"}]
+    if dt == "cat":
+        return ["ne", "q"]
+    if dt == "bool":
+        return ["self"]
+    return ["notnull"]
+
+
+def _arith_for(dt):
+    if dt in ("int", "float", "num"):
+        return ["add", 1]
+    if dt == "str":
+        return ["add", "_s"]
+    if dt == "dt":
+        return ["addtd", "1h"]
+    if dt == "bool":
+        return ["inv"]
+    return ["isna"]
+
+
+def _prefer(r, cols, p_ix=0.55):
+    """a column; one made from the index with raised probability"""
+    ix = [c for c in cols if c[2] == "ix"]
+    if ix and r.random() < p_ix:
+        return _pick(r, ix)
+    return _pick(r, cols)
+
+
+def make_tail(r, op, cols, ser=None):
+    """concrete tail of kind ``op`` for a frame with the columns ``cols`` (or for the Series ``ser`` = [name, dt, src])"""
+    if ser is not None:
+        dt, src = ser[1], ser[2]
+        if op == "s-arith":
+            return {"op": op, "a": _arith_for(dt)}
+        if op in ("s-filter", "s-filter-index"):
+            return {"op": op, "pred": _pred_for(dt, src)}
+        if op == "s-to_frame-getcol":
+            nm = _pick(r, ["v", "index", ser[0] if ser[0] is not None else "v"])
+            return {"op": op, "name": nm}
+        if op == "s-reduce":
+            return {"op": op, "fn": _pick(r, ["count", "nunique", "sum" if dt in ("int", "float", "num") else "count"])}
+        if op == "s-reset-getcol":
+            return {"op": op, "pick": r.random()}
+        return {"op": op}
+    names = [c[0] for c in cols]
+    c1 = _prefer(r, cols)
+    rest = [c for c in cols if c[0] != c1[0]] or [c1]
+    c2 = _pick(r, rest)
+    if op == "getcol":
+        return {"op": op, "col": c1[0]}
+    if op in ("getcols", "getcols-index", "count", "reset-getcols"):
+        k = r.randint(1, max(1, min(3, len(cols) - 1)))
+        sel = [c1[0]] + [c[0] for c in r.sample(rest, min(len(rest), k - 1)) if c[0] != c1[0]]
+        order = _pick(r, ["asis", "asis", "asis", "frame", "frame", "reversed", "reversed", "dup"])
+        if order == "frame":
+            sel = [n for n in names if n in sel]
+        elif order == "reversed":
+            sel = [n for n in reversed(names) if n in sel]
+        elif order == "dup" and op == "getcols":
+            sel = sel + [sel[0]]
+        return {"op": op, "cols": sel}
+    if op == "arith1":
+        return {"op": op, "col": c1[0], "a": _arith_for(c1[1])}
+    if op == "arith2":
+        num = ("int", "float", "num")
+        return {"op": op, "c1": c1[0], "c2": c2[0], "a": "add2" if c1[1] in num and c2[1] in num else "isna-or"}
+    if op in ("filter", "filter-index"):
+        return {"op": op, "by": c1[0], "pred": _pred_for(c1[1], c1[2])}
+    if op in ("filter-getcol", "sfilter"):
+        tgt = _pick(r, [c1, c2, c2])
+        return {"op": op, "by": c1[0], "pred": _pred_for(c1[1], c1[2]), "col": tgt[0]}
+    if op == "filter-getcols":
+        sel = [c[0] for c in r.sample(cols, r.randint(1, max(1, len(cols) - 1)))]
+        return {"op": op, "by": c1[0], "pred": _pred_for(c1[1], c1[2]), "cols": sel}
+    if op == "assign":
+        return {"op": op, "by": c1[0], "a": _arith_for(c1[1])}
+    if op == "assign-getcols":
+        sel = _pick(r, [["z", c2[0]], [c2[0], "z"], ["z"], [c1[0], "z"]])
+        return {"op": op, "by": c1[0], "a": _arith_for(c1[1]), "cols": sel}
+    if op == "reduce":
+        return {"op": op, "col": c1[0], "fn": _pick(r, ["count", "nunique", "sum" if c1[1] in ("int", "float", "num") else "count"])}
+    if op == "reset-getcol":
+        return {"op": op, "pick": r.random()}
+    return {"op": op}
+
+
+def _dyn_class(dtype):
+    import numpy as np
+
+    if dtype == np.dtype(bool):
+        return "bool"
+    if isinstance(dtype, np.dtype) and dtype.kind in "iuf":
+        return "num"
+    return "other"
+
+
+def resolve_tail(t, R):
+    """concrete tail for the object R (dask collection or pandas object).  Static tails are returned as they are; a
+    dynamic tail ``{"op", "dyn": seed}`` picks its columns from ``R.columns`` and its predicate / arithmetic from the
+    dtype class (num / bool / other) of ``R.dtypes`` - the lazy meta on the dask side."""
+    import random
+
+    if "dyn" not in t:
+        return t
+    op = t["op"]
+    r = random.Random(t["dyn"])
+    nd = getattr(R, "ndim", 0)
+    kind = type(R).__name__
+    if kind == "Index" or isinstance(R, pd.Index) or nd == 0 or not hasattr(R, "dtypes") and not hasattr(R, "dtype"):
+        return {"op": "self"}
+    if nd == 1:
+        sop = op if op.startswith("s-") else _SERIES_FALLBACK[op]
+        if sop == "s-label":
+            return {"op": sop, "label": t["label"]}
+        return make_tail(r, sop, None, ser=[R.name, _dyn_class(R.dtype), "col"])
+    if op.startswith("s-"):
+        op = "getcol"
+    cols = [[c, _dyn_class(dt), "col"] for c, dt in zip(list(R.columns), list(R.dtypes))]
+    if not cols:
+        return {"op": "self"}
+    return make_tail(r, op, cols)
+
+
+def _ix_lit(v):
+    if isinstance(v, dict) and "ts" in v:
+        return pd.Timestamp(v["ts"])
+    return v
+
+
+def _ix_pred(s, p):
+    if p[0] == "gt":
+        return s > _ix_lit(p[1])
+    if p[0] == "ne":
+        return s != _ix_lit(p[1])
+    if p[0] == "notnull":
+        return s.notnull()
+    return s
+
+
+def _ix_arith(s, a):
+    if a[0] == "add":
+        return s + a[1]
+    if a[0] == "addtd":
+        return s + pd.Timedelta(a[1])
+    if a[0] == "inv":
+        return ~s
+    return s.isna()
+
+
+def apply_tail(t, R, is_dask):
+    t = resolve_tail(t, R)
+    op = t["op"]
+    if op == "self":
+        return R
+    if op == "getcol":
+        return R[t["col"]]
+    if op == "getcols":
+        return R[list(t["cols"])]
+    if op == "arith1":
+        return _ix_arith(R[t["col"]], t["a"])
+    if op == "arith2":
+        x, y = R[t["c1"]], R[t["c2"]]
+        return x + y if t["a"] == "add2" else x.isna() | y.isna()
+    if op == "filter":
+        return R[_ix_pred(R[t["by"]], t["pred"])]
+    if op == "filter-getcol":
+        return R[_ix_pred(R[t["by"]], t["pred"])][t["col"]]
+    if op == "filter-getcols":
+        return R[_ix_pred(R[t["by"]], t["pred"])][list(t["cols"])]
+    if op == "sfilter":
+        return R[t["col"]][_ix_pred(R[t["by"]], t["pred"])]
+    if op == "assign":
+        return R.assign(z=_ix_arith(R[t["by"]], t["a"]))
+    if op == "assign-getcols":
+        return R.assign(z=_ix_arith(R[t["by"]], t["a"]))[list(t["cols"])]
+    if op == "index":
+        return R.index
+    if op == "getcols-index":
+        return R[list(t["cols"])].index
+    if op == "filter-index":
+        return R[_ix_pred(R[t["by"]], t["pred"])].index
+    if op == "count":
+        return R[list(t["cols"])].count()
+    if op == "reduce":
+        return getattr(R[t["col"]], t["fn"])()
+    if op in ("reset-getcol", "s-reset-getcol"):
+        RR = R.reset_index()
+        cols = list(RR.columns)
+        return RR[cols[int(t["pick"] * len(cols)) % len(cols)]]
+    if op == "reset-getcols":
+        RR = R.reset_index()
+        cols = list(RR.columns)
+        sel = [c for c in t["cols"] if c in cols]
+        return RR[[cols[0]] + sel[:1]]
+    if op == "s-arith":
+        return _ix_arith(R, t["a"])
+    if op == "s-filter":
+        return R[_ix_pred(R, t["pred"])]
+    if op == "s-index":
+        return R.index
+    if op == "s-filter-index":
+        return R[_ix_pred(R, t["pred"])].index
+    if op == "s-to_frame-getcol":
+        return R.to_frame(name=t["name"])[t["name"]]
+    if op == "s-reduce":
+        return getattr(R, t["fn"])()
+    if op == "s-label":
+        return R[t["label"]]
+    raise ValueError(op)
+
+
+def tail_reads_index(t, R=None):
+    tt = resolve_tail(t, R) if R is not None else t
+    return tt["op"] in _READS_INDEX
+
+
+# =========================================================================== class "indexcol": index <-> column moves
+IX_POOL = [["a", "int"], ["b", "str"], ["c", "float"], ["d", "float"], ["e", "bool"], ["t", "dt"], ["k", "cat"]]
+IX_MOVES = ("reset_index", "set_index", "rename_axis", "index_to_series", "index_to_frame", "to_frame", "rename", "squeeze",
+            "add_prefix", "add_suffix")
+
+
+def prepare_frame(desc, pdf, cs):
+    """the frame of an ``indexcol`` program: the rand_frame rows under the index described by ``desc["ix"]`` - dtype int /
+    datetime / str / categorical; unnamed, named "ix", named like the column "a" or "c", or literally named "index";
+    sorted unique, sorted with duplicates or unsorted - and, with ``colindex``, column d renamed to "index" (so that
+    reset_index has to call its new column "level_0")."""
+    import numpy as np
+
+    ix = desc["ix"]
+    n = len(pdf)
+    r = np.random.default_rng(cs % (2 ** 31) + 11)
+    if ix["order"] == "dups":
+        v = np.sort(r.integers(0, max(1, n // 2), n)).astype("int64")
+    else:
+        v = np.sort(r.choice(np.arange(3 * n + 1), n, replace=False)).astype("int64") if n else np.array([], dtype="int64")
+        if ix["order"] == "unsorted":
+            v = r.permutation(v)
+    t = ix["dtype"]
+    if t == "int":
+        idx = pd.Index(v, dtype="int64")
+    elif t == "dt":
+        idx = pd.DatetimeIndex(pd.Timestamp("2021-03-01") + pd.to_timedelta(v, unit="min"))
+    elif t == "str":
+        idx = pd.Index(["s%03d" % x for x in v], dtype="str")
+    else:
+        codes = v % 3 if ix["order"] == "unsorted" else np.sort(v % 3)
+        idx = pd.CategoricalIndex(pd.Categorical.from_codes(codes, categories=["p", "q", "r", "u"]))
+    out = pdf.rename(columns={"d": "index"}) if ix.get("colindex") else pdf.copy()
+    out.index = idx.rename(ix["name"])
+    return out
+
+
+def _ix_newname(ixname, names):
+    if ixname is not None:
+        return ixname
+    return "index" if "index" not in names else "level_0"
+
+
+def _ix_step(st, mv):
+    """symbolic pandas semantics of one move: new state, or None when pandas refuses (name collision) or the move would
+    read a partition-local index (after reset_index dask numbers every partition from 0: documented)"""
+    import copy
+
+    st = copy.deepcopy(st)
+    op = mv["op"]
+    F = st["kind"] == "F"
+    names = [c[0] for c in st["cols"]] if F else [st["ser"][0]]
+    reads_ix = op in ("index_to_series", "index_to_frame", "add_prefix", "add_suffix") or \
+        op == "reset_index" and not mv["drop"] or op == "filter" and mv.get("col") is None
+    if reads_ix and st["local"]:
+        return None
+    if op == "reset_index":
+        if not mv["drop"]:
+            new = _ix_newname(st["ix"][0], names)
+            if new in names:
+                return None
+            if F:
+                st["cols"].insert(0, [new, st["ix"][1], "ix"])
+            else:
+                val = st["ser"]
+                st["cols"] = [[new, st["ix"][1], "ix"], [0 if val[0] is None else val[0], val[1], val[2]]]
+                st["kind"] = "F"
+        st["ix"] = [None, "int"]
+        st["local"] = True
+    elif op == "set_index":
+        if not F:
+            return None
+        c = [c for c in st["cols"] if c[0] == mv["col"]]
+        if not c or (mv["drop"] and len(st["cols"]) < 2) or mv["col"] == st["ix"][0]:
+            return None       # (set_index on the name the index already has is a documented no-op in dask)
+        st["ix"] = [c[0][0], c[0][1]]
+        if mv["drop"]:
+            st["cols"] = [x for x in st["cols"] if x[0] != mv["col"]]
+        st["local"] = False
+        st["unordered"] = True
+    elif op == "rename_axis":
+        st["ix"][0] = mv["name"]
+    elif op == "index_to_series":
+        st["kind"], st["ser"] = "S", [st["ix"][0], st["ix"][1], "ix"]
+    elif op == "index_to_frame":
+        nm = mv["name"] if "name" in mv else (st["ix"][0] if st["ix"][0] is not None else 0)
+        st["kind"], st["cols"] = "F", [[nm, st["ix"][1], "ix"]]
+    elif op == "to_frame":
+        if F:
+            return None
+        nm = mv["name"] if "name" in mv else (st["ser"][0] if st["ser"][0] is not None else 0)
+        st["kind"], st["cols"] = "F", [[nm, st["ser"][1], st["ser"][2]]]
+    elif op == "rename":
+        if F:
+            return None
+        st["ser"][0] = mv["name"]
+    elif op == "squeeze":
+        if F and len(st["cols"]) == 1:
+            st["kind"], st["ser"] = "S", list(st["cols"][0])
+    elif op in ("add_prefix", "add_suffix"):
+        if F:
+            return None
+        st["ix"][1] = "str"
+        st["strlabels"] = True
+    elif op == "filter":
+        if mv.get("col") is not None and F and mv["col"] not in names:
+            return None
+    elif op == "project":
+        if not F or any(c not in names for c in mv["cols"]):
+            return None
+        st["cols"] = [[c for c in st["cols"] if c[0] == n][0] for n in mv["cols"]]
+    else:
+        raise ValueError(op)
+    return st
+
+
+def _ix_propose(r, st):
+    F = st["kind"] == "F"
+    w = {"reset_index": 6, "rename_axis": 2, "index_to_series": 1.2, "index_to_frame": 1.2, "filter": 1.5, "squeeze": 0.4}
+    if F:
+        w.update({"set_index": 2.5, "project": 1 if len(st["cols"]) > 1 else 0,
+                  "squeeze": 2 if len(st["cols"]) == 1 else 0.3})
+    else:
+        w.update({"to_frame": 2.5, "rename": 2.5, "add_prefix": 0.5, "add_suffix": 0.3})
+    op = _wpick(r, w)
+    if op == "reset_index":
+        return {"op": op, "drop": r.random() < 0.2}
+    if op == "set_index":
+        ok = [c for c in st["cols"] if c[0] != "c" and c[1] != "bool"]
+        if not ok:
+            return None
+        return {"op": op, "col": _prefer(r, ok, 0.4)[0], "drop": r.random() < 0.65}
+    if op == "rename_axis":
+        return {"op": op, "name": _pick(r, ["ax", "ax", None, "a", "index", "c"])}
+    if op == "index_to_frame":
+        mv = {"op": op}
+        if r.random() < 0.6:
+            mv["name"] = _pick(r, ["q", "index", "a"])
+        return mv
+    if op == "to_frame":
+        mv = {"op": op}
+        if r.random() < 0.6:
+            mv["name"] = _pick(r, ["v", "index", "a", st["ix"][0] if st["ix"][0] is not None else "v"])
+        return mv
+    if op == "rename":
+        return {"op": op, "name": _pick(r, ["v", "index", "level_0", st["ix"][0] if st["ix"][0] is not None else "v"])}
+    if op in ("add_prefix", "add_suffix"):
+        return {"op": op, "s": "p_" if op == "add_prefix" else "_s"}
+    if op == "filter":
+        if F:
+            if r.random() < 0.25 and not st["local"]:
+                return {"op": op, "col": None, "pred": _pred_for(st["ix"][1], "ix")}
+            c = _prefer(r, st["cols"])
+            return {"op": op, "col": c[0], "pred": _pred_for(c[1], c[2])}
+        if r.random() < 0.3 and not st["local"]:
+            return {"op": op, "col": None, "pred": _pred_for(st["ix"][1], "ix")}
+        return {"op": op, "col": "", "pred": _pred_for(st["ser"][1], st["ser"][2])}
+    if op == "project":
+        k = r.randint(1, len(st["cols"]) - 1)
+        return {"op": op, "cols": [c[0] for c in r.sample(st["cols"], k)]}
+    return {"op": op}
+
+
+def g_indexcol(r, known):
+    ix = {"dtype": _pick(r, ["int", "int", "dt", "str", "cat"]),
+          "name": _pick(r, [None, None, None, None, "ix", "ix", "a", "c", "index"]),
+          "order": _pick(r, ["sorted", "sorted", "dups", "unsorted"]), "colindex": r.random() < 0.2}
+    pool = [[("index" if (n == "d" and ix["colindex"]) else n), dt, "col"] for n, dt in IX_POOL]
+    st = {"kind": "F", "cols": [], "ix": [ix["name"], ix["dtype"]], "ser": None, "local": False, "unordered": False}
+    if r.random() < 0.5:
+        c = _pick(r, pool)
+        start = {"col": c[0]}
+        st.update(kind="S", ser=list(c))
+    else:
+        cols = r.sample(pool, r.randint(1, 4))
+        if r.random() < 0.7:
+            cols = [c for c in pool if c in cols]
+        start = {"cols": [c[0] for c in cols]}
+        st["cols"] = [list(c) for c in cols]
+    moves = []
+    want = _pick(r, [1, 1, 2, 2, 3])
+    tries = 0
+    while len(moves) < want and tries < 40:
+        tries += 1
+        mv = _ix_propose(r, st)
+        if mv is None:
+            continue
+        if len(moves) == want - 1 and not any(m["op"] in IX_MOVES for m in moves) and mv["op"] not in IX_MOVES:
+            continue
+        if moves and mv["op"] == moves[-1]["op"] and mv["op"] in ("filter", "project", "squeeze", "rename", "rename_axis"):
+            continue
+        st2 = _ix_step(st, mv)
+        if st2 is None:
+            continue
+        st = st2
+        moves.append(mv)
+    if st["kind"] == "F":
+        w = dict(_TAIL_W_F)
+        if st["local"]:
+            for k in ("index", "getcols-index", "filter-index"):
+                w[k] = 0
+        if len(st["cols"]) < 2:
+            w.update({"arith2": 0.3, "getcols": 1})
+        tail = make_tail(r, _wpick(r, w), st["cols"])
+    else:
+        w = dict(_TAIL_W_S)
+        if st["local"]:
+            w.update({"s-index": 0, "s-filter-index": 0})
+        tail = make_tail(r, _wpick(r, w), None, ser=st["ser"])
+    ixcols = [c[0] for c in st["cols"] if c[2] == "ix"] if st["kind"] == "F" else []
+    used = [tail.get(k) for k in ("col", "by", "c1", "c2")] + list(tail.get("cols", []))
+    d = {"class": "indexcol", "ix": ix, "start": start, "moves": moves, "tail": tail, "local": st["local"],
+         "unordered": st["unordered"], "final": {"kind": st["kind"], "cols": [c[0] for c in st["cols"]] if st["kind"] == "F" else None}}
+    nm = "unnamed" if ix["name"] is None else "named-index" if ix["name"] == "index" else \
+        "named-like-column" if ix["name"] in ("a", "c") else "named"
+    d["inner_form"] = "%s:%s:%s" % ("series" if "col" in start else "frame", ">".join(m["op"] for m in moves), nm)
+    d["form"] = "%s:%s>%s%s:%s" % ("series" if "col" in start else "frame", ">".join(m["op"] for m in moves), tail["op"],
+                                   "(index-column)" if any(u in ixcols for u in used if u is not None) else "", nm)
+    return d
+
+
+def _ix_move(mv, x, is_dask):
+    op = mv["op"]
+    if op == "reset_index":
+        return x.reset_index(drop=mv["drop"])
+    if op == "set_index":
+        return x.set_index(mv["col"], drop=mv["drop"])
+    if op == "rename_axis":
+        return x.rename_axis(mv["name"])
+    if op == "index_to_series":
+        return x.index.to_series()
+    if op == "index_to_frame":
+        return x.index.to_frame(name=mv["name"]) if "name" in mv else x.index.to_frame()
+    if op == "to_frame":
+        return x.to_frame(name=mv["name"]) if "name" in mv else x.to_frame()
+    if op == "rename":
+        return x.rename(mv["name"])
+    if op == "squeeze":
+        if x.ndim == 2:
+            return x.squeeze(axis=1)
+        return x.squeeze() if is_dask else x        # pandas would turn a one-row Series into a scalar
+    if op == "add_prefix":
+        return x.add_prefix(mv["s"])
+    if op == "add_suffix":
+        return x.add_suffix(mv["s"])
+    if op == "filter":
+        col = mv["col"]
+        # dask takes an Index inside [] for a list of column labels: the index is read through to_series()
+        by = x.index.to_series() if col is None else (x if col == "" else x[col])
+        return x[_ix_pred(by, mv["pred"])]
+    if op == "project":
+        return x[list(mv["cols"])]
+    raise ValueError(op)
+
+
+def _a_indexcol(d, df, is_dask, other, upto=None):
+    """upto: None = whole program, "inner" = all moves without the consumer, int k = the first k moves"""
+    x = df[d["start"]["col"]] if "col" in d["start"] else df[list(d["start"]["cols"])]
+    moves = d["moves"] if not isinstance(upto, int) else d["moves"][:upto]
+    for mv in moves:
+        x = _ix_move(mv, x, is_dask)
+    if upto is not None:
+        return x
+    return apply_tail(d["tail"], x, is_dask)
+
+
+TAIL_FAMILY = {"getcol": "getcol", "arith1": "getcol", "reduce": "getcol", "getcols": "getcols", "count": "getcols",
+               "arith2": "getcol-siblings", "filter": "filter", "filter-getcol": "filter", "filter-getcols": "filter",
+               "sfilter": "filter", "assign": "assign", "assign-getcols": "assign", "index": "index", "getcols-index": "index",
+               "filter-index": "filter-index", "self": "self", "reset-getcol": "reset-getcol", "reset-getcols": "reset-getcol",
+               "s-reset-getcol": "reset-getcol", "s-arith": "series-arith", "s-filter": "series-filter", "s-index": "series-index",
+               "s-filter-index": "series-filter-index", "s-to_frame-getcol": "to_frame-getcol", "s-reduce": "series-reduce",
+               "s-label": "label"}
+
+
+def consumer_head(desc, tail=None):
+    """``<class>:<operations>><consumer family>``: the head of the labels of what only the program WITH its consumer shows.
+    indexcol: start kind, the distinct moves in order, the consumer family, whether it reads a column made from the
+    index, and how the index is named; pushdown: the operation; select-after: the inner class and form."""
+    t = tail or desc["tail"]
+    fam = TAIL_FAMILY[t["op"]]
+    k = desc["class"]
+    if k == "indexcol":
+        ops = []
+        for m in desc["moves"]:
+            if m["op"] not in ops:
+                ops.append(m["op"])
+        mark = "(index-column)" if "(index-column)" in desc["form"] else ""
+        return "indexcol:%s:%s>%s%s:%s" % ("series" if "col" in desc["start"] else "frame", "+".join(ops), fam, mark,
+                                           desc["form"].rsplit(":", 1)[1])
+    if k == "pushdown":
+        return "pushdown:%s>%s" % (desc["op"], fam)
+    return "select-after:%s:%s>%s" % (desc["inner"]["class"], desc["inner"]["form"], fam)
+
+
+# =========================================================================== class "pushdown": one frame operation of _expr.py
+# whose optimizer rule (_simplify_up with a Projection / Filter / Index parent, or _simplify_down) was never reached
+# because the other classes end with the operation; here it is followed by a consumer
+PUSHDOWN_OPS = ("add_prefix", "add_suffix", "drop", "explode", "combine_first", "combine_first-other", "rename", "rename-swap",
+                "set_columns", "copy", "dropna-subset", "dropna", "abs", "round", "isna", "notnull", "replace", "neg",
+                "invert", "fillna-dict", "fillna", "ffill", "bfill", "diff", "shift", "head-elemwise", "tail-elemwise", "mulmul",
+                "map_partitions-required", "rename_axis", "to_frame", "series-rename", "index-to_frame", "index-to_series",
+                "sample", "partitions", "repartition", "clear_divisions", "cumsum", "loc-cols")
+_ALLCOLS = ["a", "b", "c", "d", "e", "t", "k", "n", "m"]
+
+
+def _dyn_tail(r, weights=None, series=False):
+    w = dict(weights or _TAIL_W_F)
+    w["reset-getcol"] = 1.5
+    w["reset-getcols"] = 0.7
+    return {"op": _wpick(r, w), "dyn": r.randrange(2 ** 31)}
+
+
+def _mp_double_a(p):
+    return p.assign(a=p["a"] * 2)
+
+
+def g_pushdown(r, known):
+    op = _pick(r, PUSHDOWN_OPS)
+    d = {"class": "pushdown", "op": op}
+    num = ["a", "c", "d"]
+    anycols = r.sample(_ALLCOLS, r.randint(3, 6))
+    if r.random() < 0.7:
+        anycols = [c for c in _ALLCOLS if c in anycols]
+    if op in ("abs", "round", "neg", "diff", "invert", "head-elemwise", "tail-elemwise", "cumsum"):
+        d["cols"] = r.sample(num, 3)
+    elif op in ("combine_first", "combine_first-other"):
+        d["cols"] = r.sample(["a", "b", "c", "d"], r.randint(2, 3))
+        d["cols2"] = r.sample(["a", "b", "c", "d", "t"], r.randint(2, 3))
+        if op == "combine_first-other":
+            d["need_known"] = True
+            d["unordered"] = True
+    elif op == "explode":
+        d["cols"] = anycols if "b" in anycols else anycols + ["b"]
+    elif op == "map_partitions-required":
+        d["cols"] = anycols if "a" in anycols else ["a"] + anycols
+    elif op in ("mulmul", "to_frame", "series-rename"):
+        d["cols"] = [_pick(r, num if op == "mulmul" else _ALLCOLS)]
+    else:
+        d["cols"] = anycols
+    cols = d["cols"]
+    if op == "drop":
+        d["drop"] = r.sample(cols, r.randint(1, len(cols) - 1))
+    elif op in ("rename", "rename-swap"):
+        if op == "rename-swap" and len(cols) >= 2:
+            x, y = r.sample(cols, 2)
+            d["mapping"] = {x: y, y: x}
+        else:
+            d["mapping"] = {c: _pick(r, ["x", "y_" + c, c + c]) for c in r.sample(cols, r.randint(1, 2))}
+            if len(set(d["mapping"].values())) < len(d["mapping"]):
+                d["mapping"] = {c: c + "_r" for c in d["mapping"]}
+    elif op == "set_columns":
+        d["names"] = ["n%d" % i for i in range(len(cols))] if r.random() < 0.5 else list(reversed(cols))
+    elif op == "dropna-subset":
+        d["subset"] = r.sample(cols, r.randint(1, 2))
+    elif op == "dropna":
+        d["kw"] = _pick(r, [{}, {"how": "all"}, {"thresh": 2}])
+    elif op == "fillna-dict":
+        fill = {"a": 0, "b": "zz", "c": 0.5, "d": -1.0, "e": False, "n": 7}
+        d["value"] = {c: fill[c] for c in cols if c in fill and r.random() < 0.6} or {"c": 0.5}
+    elif op in ("ffill", "bfill"):
+        d["limit"] = _pick(r, [None, 1, 2])
+    elif op in ("diff", "shift"):
+        d["periods"] = _pick(r, [-2, -1, 1, 2])
+    elif op in ("head-elemwise", "tail-elemwise"):
+        d["n"] = r.randint(0, 5)
+        d["novalues"] = True          # head / tail look at one partition only (documented); meta checks only
+    elif op == "rename_axis":
+        d["name"] = _pick(r, ["ax", "a", "index", None])
+    elif op in ("to_frame", "index-to_frame"):
+        d["name"] = _pick(r, [None, "v", "index"])
+    elif op == "series-rename":
+        d["name"] = _pick(r, ["v", "index", "a"])
+    elif op == "sample":
+        d["frac"] = _pick(r, [0.3, 0.7, 1.0])
+        d["novalues"] = True
+    elif op == "partitions":
+        d["i"] = r.randint(0, 5)
+        d["novalues"] = True
+    elif op == "repartition":
+        d["n"] = r.randint(1, 5)
+    elif op == "loc-cols":
+        d["sel"] = r.sample(cols, r.randint(1, len(cols) - 1))
+    d["tail"] = _dyn_tail(r)
+    if op in ("head-elemwise", "tail-elemwise", "sample", "partitions") and d["tail"]["op"] in ("reduce", "count"):
+        d["tail"]["op"] = "getcols"
+    d["inner_form"] = op
+    d["form"] = "%s>%s" % (op, d["tail"]["op"])
+    return d
+
+
+def _a_pushdown(d, df, is_dask, other, upto=None):
+    op = d["op"]
+    cols = list(d["cols"])
+    x = df[cols]
+    if op == "add_prefix":
+        R = x.add_prefix("p_")
+    elif op == "add_suffix":
+        R = x.add_suffix("_s")
+    elif op == "drop":
+        R = x.drop(columns=list(d["drop"]))
+    elif op == "explode":
+        R = x.explode("b")
+    elif op == "combine_first":
+        R = x.combine_first(df[list(d["cols2"])])
+    elif op == "combine_first-other":
+        R = x.combine_first(other[list(d["cols2"])])
+    elif op in ("rename", "rename-swap"):
+        R = x.rename(columns=dict(d["mapping"]))
+    elif op == "set_columns":
+        R = x if is_dask else x.copy()
+        R.columns = list(d["names"])
+    elif op == "copy":
+        R = x.copy()
+    elif op == "dropna-subset":
+        R = x.dropna(subset=list(d["subset"]))
+    elif op == "dropna":
+        R = x.dropna(**d["kw"])
+    elif op == "abs":
+        R = x.abs()
+    elif op == "round":
+        R = x.round(1)
+    elif op == "isna":
+        R = x.isna()
+    elif op == "notnull":
+        R = x.notnull()
+    elif op == "replace":
+        R = x.replace(1, 9)
+    elif op == "neg":
+        R = -x
+    elif op == "invert":
+        R = ~(x > 0)
+    elif op == "fillna-dict":
+        R = x.fillna(dict(d["value"]))
+    elif op == "fillna":
+        R = x[[c for c in cols if c in ("a", "c", "d", "n")] or cols].fillna(0)
+    elif op in ("ffill", "bfill"):
+        R = getattr(x, op)(limit=d["limit"])
+    elif op == "diff":
+        R = x.diff(d["periods"])
+    elif op == "shift":
+        R = x.shift(d["periods"])
+    elif op == "head-elemwise":
+        R = (x + 1).head(d["n"], compute=False) if is_dask else (x + 1).head(d["n"])
+    elif op == "tail-elemwise":
+        R = (x * 2).tail(d["n"], compute=False) if is_dask else (x * 2).tail(d["n"])
+    elif op == "mulmul":
+        R = 2 * (3 * df[cols[0]])
+    elif op == "map_partitions-required":
+        # (without meta= the rule fails on ``self.meta[...]``: TypeError '_NoDefault' object is not subscriptable)
+        R = x.map_partitions(_mp_double_a, required_columns=["a"], meta=x._meta) if is_dask else _mp_double_a(x)
+    elif op == "rename_axis":
+        R = x.rename_axis(d["name"])
+    elif op == "to_frame":
+        R = df[cols[0]].to_frame() if d["name"] is None else df[cols[0]].to_frame(name=d["name"])
+    elif op == "series-rename":
+        R = df[cols[0]].rename(d["name"])
+    elif op == "index-to_frame":
+        R = x.index.to_frame() if d["name"] is None else x.index.to_frame(name=d["name"])
+    elif op == "index-to_series":
+        R = x.index.to_series()
+    elif op == "sample":
+        R = x.sample(frac=d["frac"], random_state=3)
+    elif op == "partitions":
+        R = x.partitions[d["i"] % x.npartitions] if is_dask else x
+    elif op == "repartition":
+        R = x.repartition(npartitions=d["n"]) if is_dask else x
+    elif op == "clear_divisions":
+        R = x.clear_divisions() if is_dask else x
+    elif op == "cumsum":
+        R = x.cumsum()
+    elif op == "loc-cols":
+        R = x.loc[:, list(d["sel"])]
+    else:
+        raise ValueError(op)
+    if upto == "inner":
+        return R
+    return apply_tail(d["tail"], R, is_dask)
+
+
+# =========================================================================== class "select-after": a program of the older
+# classes followed by a consumer (projection pushdown through merge / concat / groupby / shuffle / window / repartition ...)
+SELECT_AFTER_INNER = ("merge", "merge", "concat", "shuffle", "shuffle", "window", "repartition", "astype", "groupby-agg",
+                      "groupby-agg", "reduction")
+
+
+def g_select_after(r, known):
+    k = _pick(r, SELECT_AFTER_INNER)
+    for _ in range(20):
+        inner = getattr(_Gen, "g_" + k.replace("-", "_"))(r, known)
+        if k == "reduction" and not (inner["form"].endswith(":frame") or inner["fn"] in ("value_counts", "describe", "unique", "mode")):
+            continue
+        if k == "repartition" and inner["op"] in ("head", "tail", "to_frame", "isna-any"):
+            continue
+        break
+    w = dict(_TAIL_W_F)
+    if k == "reduction":
+        tail = {"op": "s-label", "dyn": r.randrange(2 ** 31), "label": _pick(r, NUMCOLS)} if inner["form"].endswith(":frame") and \
+            inner["target"] == "num" and r.random() < 0.6 else _dyn_tail(r, _TAIL_W_F)
+    else:
+        tail = _dyn_tail(r, w)
+    d = {"class": "select-after", "inner": inner, "tail": tail, "form": "%s:%s>%s" % (k, inner["form"], tail["op"])}
+    if inner.get("need_known"):
+        d["need_known"] = True
+    return d
+
+
+def _a_select_after(d, df, is_dask, other, upto=None):
+    R = apply(d["inner"], df, is_dask, other=other)
+    if upto == "inner":
+        return R
+    return apply_tail(d["tail"], R, is_dask)
 
 
 def describe(desc):
